@@ -514,3 +514,114 @@ def alias_same_object(ctx):
             except ex.GeometryException as err:
                 got = type(err).__name__
             ctx.ensure("%s:raises-LinearDependenceError" % name, got == "LinearDependenceError", got=got)
+        try:
+            r = L3.is_coplanar(L3)
+            ctx.ensure("L.is_coplanar(L):true", ctx.conj([r]) if ctx.symbolic else bool(r))
+        except ex.GeometryException as err:
+            ctx.ensure("L.is_coplanar(L):true", False, got=type(err).__name__)
+
+
+@case("C02", "dependence.magnitudes.lattice", [], kind="bounded", functions=FUN,
+      bound="2D: near-parallel lines through lattice points (n, n+1), (n+1, n+2), n in 1..1000 (cross product 1 before normalisation), all built by join and then met; 3D: random "
+            "quadruples (80 skew, 80 coplanar) of points in {-20..20}^3 with exact integer determinant: |det| in 1..3 -> NotCoplanar, det = 0 -> a common point; collections mixing coordinates ~1 with ~1e5 (2D) / ~1e3 (3D)")
+def dependence_magnitudes(ctx):
+    import random as _random
+
+    import geometer as g
+    from geometer import exceptions as ex
+
+    rnd = _random.Random(11)
+    # 2D: distinct lines whose raw cross product is tiny compared with the coordinates must still meet, and the meet is the exact common point
+    for n in list(range(1, 40)) + [64, 100, 101, 127, 128, 129, 255, 256, 500, 777, 1000]:
+        for o in [(0, 0), (3, -2), (-7, 5)]:
+            O = g.Point(*o)
+            l1, l2 = g.join(O, g.Point(o[0] + n, o[1] - (n + 1))), g.join(O, g.Point(o[0] + n + 1, o[1] - (n + 2)))
+            w = dict(origin=o, n=n)
+            try:
+                x = g.meet(l1, l2)
+                ok = bool(x == O)
+            except ex.GeometryException as e:
+                ok = False
+                w["exception"] = type(e).__name__
+            ctx.ensure("2d:near-parallel-lines-through-a-lattice-point-meet-there", ok, witness=w)
+            try:
+                g.meet(l1, g.join(O, g.Point(o[0] + 2 * n, o[1] - 2 * (n + 1))))
+                ok = False
+            except ex.LinearDependenceError:
+                ok = True
+            except ex.GeometryException as e:
+                ok = False
+                w["exception"] = type(e).__name__
+            ctx.ensure("2d:the-same-line-through-other-points-raises", ok, witness=w)
+    # 3D: skew with the smallest possible determinants / exactly coplanar
+    found = {"skew": 0, "coplanar": 0}
+    for _ in range(200000):
+        if found["skew"] >= 80 and found["coplanar"] >= 80:
+            break
+        P = [[rnd.randint(-20, 20) for _ in range(3)] + [1] for _ in range(4)]
+        d = round(float(np.linalg.det(np.array(P, dtype=float))))
+        M = [[int(v) for v in r] for r in P]
+        # exact integer determinant (Laplace)
+        def det3(m):
+            return m[0][0] * (m[1][1] * m[2][2] - m[1][2] * m[2][1]) - m[0][1] * (m[1][0] * m[2][2] - m[1][2] * m[2][0]) + m[0][2] * (m[1][0] * m[2][1] - m[1][1] * m[2][0])
+        d = sum((-1) ** j * M[0][j] * det3([[r[k] for k in range(4) if k != j] for r in M[1:]]) for j in range(4))
+        if P[0] == P[1] or P[2] == P[3]:
+            continue
+        kind = "skew" if 1 <= abs(d) <= 3 else ("coplanar" if d == 0 else None)
+        if kind is None or found[kind] >= 80:
+            continue
+        A, B, C, D = (g.Point(*p[:3]) for p in P)
+        l1, l2 = g.join(A, B), g.join(C, D)
+        if kind == "coplanar" and (bool(l1.contains(C)) and bool(l1.contains(D))):
+            continue
+        found[kind] += 1
+        w = dict(points=[p[:3] for p in P], det=d)
+        for op in ("meet", "join"):
+            try:
+                r = getattr(g, op)(l1, l2)
+                got = "returned"
+            except ex.NotCoplanar:
+                got = "NotCoplanar"
+            except ex.GeometryException as e:
+                got = type(e).__name__
+            if kind == "skew":
+                ctx.ensure("3d:skew-lines-with-determinant-1..3-raise-NotCoplanar", got == "NotCoplanar", witness=dict(w, op=op, got=got))
+            else:
+                ok = got == "returned" and (bool(l1.contains(r)) and bool(l2.contains(r)) if op == "meet" else all(bool(r.contains(x)) for x in (A, B, C, D)))
+                ctx.ensure("3d:coplanar-lines-return-the-common-point/plane", ok, witness=dict(w, op=op, got=got))
+    ctx.ensure("3d:lattice-populated", found["skew"] >= 80 and found["coplanar"] >= 80, witness=found)
+    # collections mixing magnitudes: the zero test is per element
+    for big in (1e3, 1e5):
+        a = g.PointCollection([[1, 2, 1], [big, 3 * big + 1, 1], [0, 1, 1]])
+        b = g.PointCollection([[3, 1, 1], [2 * big + 7, big, 1], [1, 1, 1]])
+        for swap in (False, True):
+            x, y = (b, a) if swap else (a, b)
+            w = dict(big=big, swap=swap)
+            try:
+                r = g.join(x, y)
+                ok = all(bool(r[k] == g.join(x[k], y[k])) for k in range(3))
+            except ex.GeometryException as e:
+                ok = False
+                w["exception"] = type(e).__name__
+            ctx.ensure("2d:collection-mixing-magnitudes-joins-element-by-element", ok, witness=w)
+            try:
+                r = g.meet(g.LineCollection(x.array), g.LineCollection(y.array))
+                ok = all(bool(r[k] == g.meet(g.Line(x.array[k]), g.Line(y.array[k]))) for k in range(3))
+            except ex.GeometryException as e:
+                ok = False
+                w["exception"] = type(e).__name__
+            ctx.ensure("2d:collection-mixing-magnitudes-meets-element-by-element", ok, witness=w)
+    for big in (1e2, 1e3):
+        a = g.PointCollection([[1, 2, 0, 1], [big, 3 * big + 1, -big, 1]])
+        b = g.PointCollection([[3, 1, 1, 1], [2 * big + 7, big, 5, 1]])
+        c = g.PointCollection([[0, 0, 2, 1], [1, -big, 2 * big, 1]])
+        w = dict(big=big)
+        try:
+            r = g.join(a, b, c)
+            ok = all(bool(r[k] == g.join(a[k], b[k], c[k])) for k in range(2))
+            r2 = g.meet(g.PlaneCollection(a.array), g.PlaneCollection(b.array), g.PlaneCollection(c.array))
+            ok = ok and all(bool(r2[k] == g.meet(g.Plane(a.array[k]), g.Plane(b.array[k]), g.Plane(c.array[k]))) for k in range(2))
+        except ex.GeometryException as e:
+            ok = False
+            w["exception"] = type(e).__name__
+        ctx.ensure("3d:collection-mixing-magnitudes-element-by-element", ok, witness=w)
